@@ -19,6 +19,7 @@ pub fn def() -> PropDef {
         panic_is_violation: false,
         rule: "run = seeded multi-replica history with later edits that add successors/deletes to old ops, merges, forks, clean restarts; at probe points and at the end, on every replica: every retrievable change is byte-identical to the bytes recorded at creation and its hash is the harness-computed SHA-256 of the chunk; get_changes(have) for have-sets drawn from the run = exactly the non-ancestors of have, each after its deps; get_changes_added / get_last_local_change likewise; all again after load(save()); non-trivial = some retrieved change has an op that later gained a successor; distinct by digest of the change DAG",
         custom: None,
+        abort_prone: false,
         probes: &["probe.change_with_later_successor", "probe.have_sets_checked", "probe.changes_compared", "probe.after_reload_checked", "probe.get_changes_added_checked", "probe.last_local_checked"],
         fault_kinds: &["fault.reorder", "fault.dup", "fault.loss", "fault.crash.clean"],
     }
